@@ -433,8 +433,9 @@ fn handle_diff<T: Clone>(
 
                 // There is space for this new item.
                 res.push(VectorDiff::Insert {
-                    // Subtract 1 because `insert` adds a value compared to `previous_length`.
-                    index: (index - index_of_limit).saturating_sub(1),
+                    // If the view was full, a `PopFront` has just shifted every item by 1.
+                    // Otherwise the view starts at index 0 and the index is unchanged.
+                    index: if is_full { index - index_of_limit - 1 } else { index },
                     value,
                 });
             } else {
